@@ -151,6 +151,20 @@ H18 = """    #[kani::proof] #[kani::unwind(12)]
         else { assert!(g.np == 2 && g.passes[0] == 1 && g.passes[1] == 2); }
     }
 """
+H18S = """    #[kani::proof] #[kani::unwind(12)]
+    fn %(name)s() {      // split-port RAM, element designated through %(reg)s: load / add / store on every byte of the element, low byte first (no INC/DEC there)
+        let k: u8 = kani::any();
+        let vt = match k %% 3 { 0 => VariableType::CharPtr, 1 => VariableType::ShortPtr, _ => VariableType::CharPtrPtr };
+        let mem = if kani::any() { VariableMemory::Superchip } else { VariableMemory::MemoryOnChip(1) };
+        let cs = CompilerState { v: Variable { var_type: vt, memory: mem, var_const: false, signed: false, size: 1 } };
+        let mut g = new_state(&cs, kani::any());
+        let operand = %(operand)s;
+        let r = g.generate_plusplus(&operand, 0, kani::any());
+        assert!(r.is_ok() && g.arith_path);
+        if vt == VariableType::CharPtr { assert!(g.np == 1 && g.passes[0] == 1); }
+        else { assert!(g.np == 2 && g.passes[0] == 1 && g.passes[1] == 2); }
+    }
+"""
 H17 = """    #[kani::proof] #[kani::unwind(12)]
     fn %(name)s() {      // split-port RAM: the increment must go through load / add / store, never INC/DEC on the variable
         let k: u8 = kani::any();
@@ -214,6 +228,10 @@ def build(repo):
         add("pp_y_%s" % word, H8 % {"name": "pp_y_%s" % word, "what": "register Y, %s" % word, "operand": "ExprType::Y", "pp": pp, "check": "m.y == m0.y.%s(1) && m.lo == m0.lo && m.a == m0.a && m.x == m0.x" % sign, "val": "m.y"},
             ["C01", "C15"], "plusplus-y-%s" % word, "%s of Y: value, other registers, flags belief" % word)
     add("pp_element_y_width", H18 % {"name": "pp_element_y_width"}, ["C01", "C15"], "plusplus-y-indexed-element-width", "++/-- of v[Y]: one byte pass for an array of chars, low then high for an array of shorts / of pointers (as with an X index or a constant index)")
+    add("pp_splitport_element_x_width", H18S % {"name": "pp_splitport_element_x_width", "reg": "X", "operand": absx}, ["C17", "C01", "C15"], "splitport-x-indexed-element-width",
+        "cfg atari2600: ++/-- of v[X] in split-port RAM: one byte pass for an array of chars, low then high for an array of shorts / of pointers", cfgs=("atari2600",))
+    add("pp_splitport_element_y_width", H18S % {"name": "pp_splitport_element_y_width", "reg": "Y", "operand": 'ExprType::AbsoluteY("v".to_string())'}, ["C17", "C01", "C15"], "splitport-y-indexed-element-width",
+        "cfg atari2600: ++/-- of v[Y] in split-port RAM: one byte pass for an array of chars, low then high for an array of shorts / of pointers", cfgs=("atari2600",))
     add("pp_splitport_abs", H17 % {"name": "pp_splitport_abs", "operand": abs8.replace("true", "kani::any()")}, ["C17"], "noinc-abs", "cfg atari2600: ++/-- on a superchip / on-chip-RAM variable never emits INC/DEC on it", cfgs=("atari2600",))
     add("pp_splitport_abs16_flags", H17F % {"name": "pp_splitport_abs16_flags", "operand": abs16}, ["C17", "C01"], "splitport-16bit-flags-unknown", "cfg atari2600: after ++/-- of a 16-bit cell in split-port RAM (load/add/store path) the generator claims nothing about N/Z", cfgs=("atari2600",))
     add("pp_splitport_absx", H17 % {"name": "pp_splitport_absx", "operand": absx}, ["C17"], "noinc-absx", "cfg atari2600: ++/-- on v[X] in split-port RAM never emits INC/DEC on it", cfgs=("atari2600",))
